@@ -124,3 +124,22 @@ Fixpoint number_ops (seq : N) (ops : list bop) : list (N * bop) :=
 
 Definition batch_insert_into (b : bytes) : list (N * bop) * bstatus :=
   let '(ops, st) := batch_iterate b in (number_ops (batch_sequence b) ops, st).
+
+(* ---- encoding of a list of operations, and its well-formedness ---- *)
+Definition enc_op (o : bop) : bytes :=
+  match o with
+  | BPut k v => [1] ++ slice_write k ++ slice_write v
+  | BDel k => [0] ++ slice_write k
+  end.
+
+Definition enc_ops (ops : list bop) : bytes := flat_map enc_op ops.
+
+(* lengths fit the varint32 prefix; the count fits the fixed32 header field *)
+Definition wf_op (o : bop) : bool :=
+  match o with
+  | BPut k v => (nlen k <? 4294967296) && (nlen v <? 4294967296)
+  | BDel k => nlen k <? 4294967296
+  end.
+
+Definition wf_ops (ops : list bop) : bool :=
+  forallb wf_op ops && (nlen ops <? 4294967296).
